@@ -7,6 +7,7 @@
 -/
 import AITB.Props.C18f
 namespace AITB.Cassandra
+variable {fl : Flags}
 
 /-- two preamble states that no observable continuation can tell apart -/
 def Agree (p q : Pre) : Prop :=
@@ -19,29 +20,29 @@ def RelPre : R (Pre × List Str) → R (Pre × List Str) → Prop
   | _, _ => False
 
 theorem preLine_agree (p q : Pre) (h : Agree p q) (line : Str) :
-    (preLine p line = none ∧ preLine q line = none) ∨
-    (∃ e, preLine p line = some (.error e) ∧ preLine q line = some (.error e)) ∨
-    (∃ p' q', preLine p line = some (.ok p') ∧ preLine q line = some (.ok q') ∧ Agree p' q') := by
+    (preLine fl p line = none ∧ preLine fl q line = none) ∨
+    (∃ e, preLine fl p line = some (.error e) ∧ preLine fl q line = some (.error e)) ∨
+    (∃ p' q', preLine fl p line = some (.ok p') ∧ preLine fl q line = some (.ok q') ∧ Agree p' q') := by
   obtain ⟨h1, h2, h3, h4, h5, h6, h7⟩ := h
   unfold preLine
   split
   · right; right; exact ⟨p, q, rfl, rfl, h1, h2, h3, h4, h5, h6, h7⟩
   · split
-    · cases he : extractIDs line with
+    · cases he : extractIDs fl line with
       | error e => right; left; exact ⟨e, rfl, rfl⟩
       | ok nm =>
         obtain ⟨n, m⟩ := nm
         right; right
         exact ⟨{ p with S := n, smap := m }, { q with S := n, smap := m }, rfl, rfl, rfl, h2, h3, h4, fun _ => rfl, h6, h7⟩
     · split
-      · cases he : extractIDs line with
+      · cases he : extractIDs fl line with
         | error e => right; left; exact ⟨e, rfl, rfl⟩
         | ok nm =>
           obtain ⟨n, m⟩ := nm
           right; right
           exact ⟨{ p with A := n, amap := m }, { q with A := n, amap := m }, rfl, rfl, h1, rfl, h3, h4, h5, fun _ => rfl, h7⟩
       · split
-        · cases he : extractIDs line with
+        · cases he : extractIDs fl line with
           | error e => right; left; exact ⟨e, rfl, rfl⟩
           | ok nm =>
             obtain ⟨n, m⟩ := nm
@@ -51,7 +52,7 @@ theorem preLine_agree (p q : Pre) (h : Agree p q) (line : Str) :
           · cases ht : at? (tokenize colon line) 1 with
             | error e => right; left; exact ⟨e, rfl, rfl⟩
             | ok t =>
-              cases hd : stod t with
+              cases hd : stodS fl t with
               | error e => right; left; exact ⟨e, by simp [bind, Except.bind, hd], by simp [bind, Except.bind, hd]⟩
               | ok d =>
                 right; right
@@ -60,7 +61,7 @@ theorem preLine_agree (p q : Pre) (h : Agree p q) (line : Str) :
           · left; exact ⟨rfl, rfl⟩
 
 theorem parseModelInfo_agree (raws : List Str) (p q : Pre) (acc : List Str) (h : Agree p q) :
-    RelPre (parseModelInfo raws p acc) (parseModelInfo raws q acc) := by
+    RelPre (parseModelInfo fl raws p acc) (parseModelInfo fl raws q acc) := by
   induction raws generalizing p q acc with
   | nil => exact ⟨rfl, h⟩
   | cons raw rest ih =>
@@ -104,16 +105,16 @@ def view (r : Parsed) : Nat × Nat × Nat × XRat × List Write × List Write ×
 theorem parse_reuse (fl : Flags) (k : Kind) (prev : Pre) (text : Str) :
     (parseWith fl k prev text).map view = (parse fl k text).map view := by
   have hag : Agree (resetPre prev) {} := ⟨rfl, rfl, rfl, rfl, fun h => absurd rfl h, fun h => absurd rfl h, fun h => absurd rfl h⟩
-  have hrel := parseModelInfo_agree (splitLines text) (resetPre prev) {} [] hag
+  have hrel := parseModelInfo_agree (fl := fl) (splitLines text) (resetPre prev) {} [] hag
   unfold parseWith parse
-  cases h1 : parseModelInfo (splitLines text) (resetPre prev) [] with
+  cases h1 : parseModelInfo fl (splitLines text) (resetPre prev) [] with
   | error e =>
-    cases h2 : parseModelInfo (splitLines text) {} [] with
+    cases h2 : parseModelInfo fl (splitLines text) {} [] with
     | error e' => rw [h1, h2] at hrel; simp only [RelPre] at hrel; subst hrel; rfl
     | ok x => rw [h1, h2] at hrel; obtain ⟨_, _⟩ := x; exact absurd hrel (by simp [RelPre])
   | ok x =>
     obtain ⟨p, l⟩ := x
-    cases h2 : parseModelInfo (splitLines text) {} [] with
+    cases h2 : parseModelInfo fl (splitLines text) {} [] with
     | error e' => rw [h1, h2] at hrel; exact absurd hrel (by simp [RelPre])
     | ok y =>
       obtain ⟨q, l'⟩ := y
@@ -142,7 +143,7 @@ theorem parse_reuse (fl : Flags) (k : Kind) (prev : Pre) (text : Str) :
 
 /-- lines that do not start with `states` leave the state size and the state-name table alone -/
 theorem parseModelInfo_no_states_map (raws : List Str) (p p' : Pre) (acc lines : List Str)
-    (h : parseModelInfo raws p acc = .ok (p', lines))
+    (h : parseModelInfo fl raws p acc = .ok (p', lines))
     (hno : ∀ raw ∈ raws, startsWith (trim raw) kwStates = false) : p'.S = p.S ∧ p'.smap = p.smap := by
   induction raws generalizing p acc with
   | nil => simp only [parseModelInfo, pure_ok] at h; injection h with h1 _; rw [h1]; exact ⟨rfl, rfl⟩
@@ -179,7 +180,7 @@ theorem parseModelInfo_no_states_map (raws : List Str) (p p' : Pre) (acc lines :
 
 /-- a line that starts with `states` (and not with `values`) is handled by the states action -/
 theorem preLine_states_line (p : Pre) (l : Str) (h : startsWith l kwStates = true) :
-    preLine p l = some (do let (n, m) ← extractIDs l; pure { p with S := n, smap := m }) := by
+    preLine fl p l = some (do let (n, m) ← extractIDs fl l; pure { p with S := n, smap := m }) := by
   have hv : kwValues = 'v' :: "alues".toList := by decide
   have hs : kwStates = 's' :: "tates".toList := by decide
   cases l with
@@ -195,10 +196,10 @@ theorem preLine_states_line (p : Pre) (l : Str) (h : startsWith l kwStates = tru
 /-- **later preamble lines override earlier ones (states)**: if `raw` is the last line starting with `states`, the
     accepted preamble carries exactly its size and its name table — the names of any earlier declaration are gone -/
 theorem states_last_wins (r1 r2 : List Str) (raw : Str) (p0 p' : Pre) (lines : List Str)
-    (h : parseModelInfo (r1 ++ raw :: r2) p0 [] = .ok (p', lines))
+    (h : parseModelInfo fl (r1 ++ raw :: r2) p0 [] = .ok (p', lines))
     (hne : (trim raw).isEmpty = false) (hd : startsWith (trim raw) kwStates = true)
     (hno : ∀ x ∈ r2, startsWith (trim x) kwStates = false) :
-    extractIDs (trim raw) = .ok (p'.S, p'.smap) := by
+    extractIDs fl (trim raw) = .ok (p'.S, p'.smap) := by
   rw [parseModelInfo_append] at h
   obtain ⟨⟨q, l1⟩, _, h2⟩ := bind_ok.1 h
   simp only [parseModelInfo, hne, Bool.false_eq_true, if_false, preLine_states_line q (trim raw) hd] at h2
